@@ -7,12 +7,13 @@ Import ListNotations.
 
 Definition Tz (id : Z) (i : info) (ch : list rt) : rt := T (Z.to_nat id) i ch.
 
-Definition case08 := (forest * list (Z * verdict) * option Z)%type.
+Definition case08 := (forest * list (Z * raw) * option Z)%type.
 
-Definition vmap (m : list (Z * verdict)) (n : nat) : verdict :=
+(* the predicate of a case: what it does on each node *)
+Definition rmap (m : list (Z * raw)) (n : nat) : raw :=
   match find (fun p => Z.eqb (fst p) (Z.of_nat n)) m with
   | Some p => snd p
-  | None => VFalse
+  | None => RNone
   end.
 
 (* a node of a copy: (allocation index relative to the call, data object, data_id, children) *)
@@ -23,15 +24,16 @@ Definition sx_shapes (f : forest) : sx := L (map sx_shape f).
 
 Definition run08 (c : case08) : sx :=
   let f := fst (fst c) in
-  let v := vmap (snd (fst c)) in
+  let v := fun n => classify_cp (call_predicate (rmap (snd (fst c)) n)) in   (* as seen by _add_filtered *)
+  let w := fun n => classify_ip (call_predicate (rmap (snd (fst c)) n)) in   (* as seen by Node.filter *)
   match snd c with
   | None =>
       let r := filtered v f in
-      let ip := filter_inplace v f in
+      let ip := filter_inplace w f in
       L [ L [sx_copies r; sx_copies r];                  (* Tree.filtered, Tree.copy(predicate=) *)
           sx_shapes f;                                    (* the source afterwards *)
           sx_shapes ip; sx_nat (length (ids ip));         (* Tree.filter *)
-          L [sx_ids (calls v f); sx_ids (calls v f); sx_ids (calls v f)] ]
+          L [sx_ids (calls v f); sx_ids (calls v f); sx_ids (calls w f)] ]
   | Some z =>
       let n := Z.to_nat z in
       match find_node n f with
@@ -40,10 +42,10 @@ Definition run08 (c : case08) : sx :=
           let g := rch t in
           let r1 := [T 1 (rinfo t) (fst (add_filtered v g 2))] in
           let r0 := fst (add_filtered v g 1) in
-          let ip := map (upd_at n (filter_inplace v)) f in
+          let ip := map (upd_at n (filter_inplace w)) f in
           L [ L [sx_copies r1; sx_copies r1; sx_copies r0];   (* Node.filtered, Node.copy(predicate=), Node.copy(add_self=False, predicate=) *)
               sx_shapes f;
               sx_shapes ip; sx_nat (length (ids ip));         (* Node.filter *)
-              L [sx_ids (calls v g); sx_ids (calls v g); sx_ids (calls v g); sx_ids (calls v g)] ]
+              L [sx_ids (calls v g); sx_ids (calls v g); sx_ids (calls v g); sx_ids (calls w g)] ]
       end
   end.
